@@ -485,6 +485,16 @@ def gen_text(thorough=False):
     for n in (40, 63, 64, 65, 100):
         yield 'text descriptor of %d bytes' % n, (short + b'#' * n)[:n - 1] \
             + b'\n'
+    # a NUL ends the descriptor text: what follows is not part of it
+    d = vmdk_descriptor()
+    cut = d.index('createType')
+    yield 'text, NUL, then the createType line', (
+        d[:cut] + '#' * 600 + '\n').encode() + b'\x00' + (
+        d[cut:] + '#' * 600 + '\n').encode()
+    yield 'text descriptor, NUL padding, then non-ASCII bytes', (
+        d + '#' * 600 + '\n').encode() + b'\x00' * 300 + b'\xff\xfe' * 300
+    yield 'text descriptor then NUL padding', (
+        d + '#' * 600 + '\n').encode() + b'\x00' * 700
     yield 'plain text 2000', b'hello world\n' * 170
     yield 'text then high byte', b'a' * 600 + b'\xff' + b'text' * 100
     yield 'zeros 4096', b'\x00' * 4096
